@@ -8,9 +8,13 @@ use crate::proto;
 use crate::sqllex::Tag;
 use crate::wire::{self, BackendSpec, Env};
 use bytes::BytesMut;
+#[cfg(feature = "lib")]
 use pgcat::config::{Plugins, TableAccess};
+#[cfg(feature = "lib")]
 use pgcat::plugins::PluginOutput;
+#[cfg(feature = "lib")]
 use pgcat::pool::PoolSettings;
+#[cfg(feature = "lib")]
 use pgcat::query_router::QueryRouter;
 use proptest::prelude::*;
 use serde::{Deserialize, Serialize};
@@ -19,7 +23,16 @@ use sqlparser::parser::Parser;
 use std::time::Duration;
 
 pub fn check(tier: Tier, seed: u64, replay: (Option<&str>, Option<&str>)) -> Vec<PartReport> {
-    crate::run_parts!(tier, seed, replay, [LibPart, WirePart])
+    #[cfg(feature = "lib")]
+    {
+        crate::run_parts!(tier, seed, replay, [LibPart, WirePart])
+    }
+    #[cfg(not(feature = "lib"))]
+    {
+        let mut v = vec![crate::engine::lib_unavailable("C19", "lib")];
+        v.extend(crate::run_parts!(tier, seed, replay, [WirePart]));
+        v
+    }
 }
 
 pub const POSITIONS: u8 = 16;
@@ -129,8 +142,10 @@ pub struct LibCase {
     pub parse_msg: bool,
 }
 
+#[cfg(feature = "lib")]
 pub struct LibPart;
 
+#[cfg(feature = "lib")]
 impl Part for LibPart {
     type Case = LibCase;
     fn prop(&self) -> &'static str {
